@@ -80,6 +80,16 @@ func (g *c04Gen) enum8() uint64 {
 
 func hx(b []byte) string { return verifkit.Hex(b) }
 
+// be: n as w big-endian bytes (RFC 5246 §4.4)
+func be(n uint64, w int) []byte {
+	b := make([]byte, w)
+	for i := w - 1; i >= 0; i-- {
+		b[i] = byte(n)
+		n >>= 8
+	}
+	return b
+}
+
 // ---------------------------------------------------------------------------------------------- entries
 
 type c04Entry struct {
@@ -471,6 +481,15 @@ func (g *c04Gen) one(it int) {
 		}
 		sct := SignedCertificateTimestamp{SCTVersion: Version(g.enum8()), Timestamp: g.u64(), Extensions: g.bytes(g.length())}
 		entry := LogEntry{Leaf: MerkleTreeLeaf{TimestampedEntry: &TimestampedEntry{EntryType: LogEntryType(e.et), X509Entry: e.x509, PrecertEntry: e.pre, JSONEntry: e.json}}}
+		// the leaf of a LogEntry has extensions of its own (none when a verifier rebuilt it from certificate + timestamp);
+		// RFC 6962 §3.2 signs the SCT's extensions, whatever the leaf carries
+		switch r.Intn(3) {
+		case 0:
+			entry.Leaf.TimestampedEntry.Extensions = g.bytes(1 + r.Intn(20))
+		case 1:
+			entry.Leaf.TimestampedEntry.Extensions = append(CTExtensions{}, sct.Extensions...)
+		}
+		entry.Leaf.TimestampedEntry.Timestamp = g.u64() // likewise: the signed timestamp is the SCT's
 		op := fmt.Sprintf("SCTIN v=%d ts=%d ext=%s %s", sct.SCTVersion, sct.Timestamp, hx(sct.Extensions), e)
 		var b []byte
 		var err error
@@ -490,6 +509,24 @@ func (g *c04Gen) one(it int) {
 			g.out.Fail("sigin "+op, fmt.Sprintf("SerializeSCTSignatureInput: err=%v, expected success=%v (version must be v1, entry type x509 or precert, lengths in range)", err, valid))
 			return
 		}
+		if err == nil {
+			// the RFC 6962 §3.2 `digitally-signed struct`, assembled by hand: version, signature_type = certificate_timestamp(0),
+			// timestamp, entry_type, signed_entry, extensions — all taken from the SCT and the entry body
+			want := []byte{0, 0}
+			want = append(want, be(sct.Timestamp, 8)...)
+			want = append(want, be(e.et, 2)...)
+			if e.et == 0 {
+				want = append(append(want, be(uint64(len(e.x509.Data)), 3)...), e.x509.Data...)
+			} else {
+				want = append(want, e.pre.IssuerKeyHash[:]...)
+				want = append(append(want, be(uint64(len(e.pre.TBSCertificate)), 3)...), e.pre.TBSCertificate...)
+			}
+			want = append(append(want, be(uint64(len(sct.Extensions)), 2)...), sct.Extensions...)
+			if !bytes.Equal(b, want) {
+				g.out.Fail("sigin-bytes "+op+" leafext="+hx(entry.Leaf.TimestampedEntry.Extensions), fmt.Sprintf("SerializeSCTSignatureInput = %s, RFC 6962 §3.2 input = %s", hx(b), hx(want)))
+				return
+			}
+		}
 		if err != nil {
 			g.out.T(op, "err")
 		} else {
@@ -503,6 +540,14 @@ func (g *c04Gen) one(it int) {
 		if (err == nil) != (sth.Version == 0) {
 			g.out.Fail("sigin "+op, fmt.Sprintf("SerializeSTHSignatureInput: err=%v for version %d", err, sth.Version))
 			return
+		}
+		if err == nil {
+			// RFC 6962 §3.5 by hand: version, signature_type = tree_hash(1), timestamp, tree_size, sha256_root_hash
+			want := append(append(append([]byte{0, 1}, be(sth.Timestamp, 8)...), be(sth.TreeSize, 8)...), sth.SHA256RootHash[:]...)
+			if !bytes.Equal(b, want) {
+				g.out.Fail("sigin-bytes "+op, fmt.Sprintf("SerializeSTHSignatureInput = %s, RFC 6962 §3.5 input = %s", hx(b), hx(want)))
+				return
+			}
 		}
 		if err != nil {
 			g.out.T(op, "err")
